@@ -53,10 +53,7 @@ partial def termToGo : Term → GoVal
   | .list (.atom "L" :: .atom "typed" :: ts) => .slice (ts.map termToGo)
   | .list (.atom "L" :: ts) => .slice (ts.map termToGo)
   | .list (.atom "M" :: .atom "nilref" :: _) => .map []
-  | .list (.atom "M" :: .atom "typed" :: .atom "nkey" :: ts) => .map (pairs ts)
-  | .list (.atom "M" :: .atom "typed" :: ts) => .map (pairs ts)
-  | .list (.atom "M" :: .atom "nkey" :: ts) => .map (pairs ts)
-  | .list (.atom "M" :: ts) => .map (pairs ts)
+  | .list (.atom "M" :: ts) => .map (pairs (dropFlags ts))
   | .list (.atom "T" :: ts) => .struct (fields ts)
   | .list [.atom "O", .atom k] => .other k
   | .list [.atom "NT", .atom "0"] => .struct [(b "A", true, .int 1), (b "B", true, .str (b "x"))]
@@ -82,6 +79,12 @@ partial def termToGo : Term → GoVal
   | .list [.atom "NT", .atom _] => .struct []
   | _ => .other "?"
 where
+  /-- how the harness realises the map (element type, key type): the same abstract value -/
+  dropFlags : List Term → List Term
+    | .atom "typed" :: r => dropFlags r
+    | .atom "nkey" :: r => dropFlags r
+    | .atom "akey" :: r => dropFlags r
+    | ts => ts
   pairs : List Term → List (Bytes × GoVal)
     | .atom k :: v :: r => (hexOf k, termToGo v) :: pairs r
     | _ => []
